@@ -238,8 +238,10 @@ def run_multi(case):
     d = tempfile.mkdtemp(prefix='vf_c13m_')
     try:
         files = {}
-        for i, rel in enumerate(['a_first.py', 'b_second.py', os.path.join('pkg', 'c_third.py'), os.path.join('pkg', 'sub', 'd_fourth.pyw')]):
+        for i, rel in enumerate(['a_first.py', 'b_second.py', 'b_second_grows.py', os.path.join('pkg', 'c_third.py'), os.path.join('pkg', 'c_third_grows.py'), os.path.join('pkg', 'sub', 'd_fourth.pyw')]):
             src = (MULTI_SRC.replace('TAG', repr('file %d' % i)) + ('extra_%d = gamma\n' % i) * i).encode()
+            if 'grows' in rel:
+                src = b'EPSILON=1e-5' if i == 2 else b'x=[]\ny=True if 0in x else False'      # minified form is longer: passed through, the run goes on
             os.makedirs(os.path.dirname(os.path.join(d, rel)) or d, exist_ok=True)
             with open(os.path.join(d, rel), 'wb') as f:
                 f.write(src)
@@ -248,7 +250,7 @@ def run_multi(case):
             f.write(b'not python\n')
         before = cli.snapshot(d)
         order = case.get('order', 0)
-        paths = [['a_first.py', 'b_second.py', 'pkg'], ['pkg', 'b_second.py', 'a_first.py'], ['.']][order % 3]
+        paths = [['a_first.py', 'b_second_grows.py', 'b_second.py', 'pkg'], ['pkg', 'b_second.py', 'b_second_grows.py', 'a_first.py'], ['.']][order % 3]
         argv = list(flags) + list(pres) + ['--in-place'] + paths if order % 2 == 0 else ['--in-place'] + paths + list(flags) + list(pres)
         rc, out, err = cli.run_cli(argv, d)
         after = cli.snapshot(d)
